@@ -1,7 +1,7 @@
 """C17 -- noise / clipping schedules follow their closed forms and are what is used."""
 from py import vlib
 
-GENS = ['Sched', 'Optim']
+GENS = ['Sched', 'Optim', 'Ghost']
 RULE = ('cases = (family noise|clip) x (kind exp|step|lambda) x init x gamma x step_size x lambda-id x op sequence over '
         '{S scheduler.step, O DP optimizer step, R save/fresh/load}; generated from the seed; a case is non-trivial when it '
         'contains at least one S; distinct by canonical JSON of the case')
@@ -29,11 +29,16 @@ def gen_cases(ctx, n):
                     seen += 1
                     if seen > 9:
                         ops[j] = 'O'
-        if r.random() < 0.3:
+        u = r.random()
+        if u < 0.3:
             c['opt'] = 'per_layer'       # DPPerLayerOptimizer: the scheduled scalar is the norm of the per-layer bounds
+        elif u < 0.5:
+            c['opt'] = 'ghost'           # ghost clipping: the module computes the clipping coefficients, the optimizer the noise
         cases.append(c)
     for kind in ('exp', 'step'):
         cases.append({'family': 'clip', 'kind': kind, 'init': 2.0, 'gamma': 0.5, 'step_size': 1, 'lam': 0, 'ops': ['O', 'S', 'O', 'S', 'S', 'O'], 'opt': 'per_layer'})
+    for kind in ('exp', 'step'):
+        cases.append({'family': 'clip', 'kind': kind, 'init': 2.0, 'gamma': 0.5, 'step_size': 1, 'lam': 0, 'ops': ['O', 'S', 'O', 'S', 'S', 'O'], 'opt': 'ghost'})
     # a grad-clip / noise scheduler stepping BETWEEN the physical batches of one logical batch (virtual steps)
     for kind in ('exp', 'step', 'lambda'):
         for fam in ('clip', 'noise'):
